@@ -135,7 +135,10 @@ def oracle(case, obs) -> List[str]:
                 if disjoint and got[x[0]] != (cont[0][2] if cont else -1):
                     out.append(f"rank {r} host event {x[0]} ts={x[1]}: iteration {got[x[0]]}, containing step {cont}")
             elif x[5] > 0:
-                h = by_idx.get(x[7]) if x[7] > 0 else None
+                # the launching host call, found by the correlation id itself (0 is an id like any other; -1 is "none"),
+                # not through the implementation's link column
+                hs = [y for y in rows if y[5] == -1 and y[6] == x[6] and x[6] >= 0 and y[9] not in ("Event Sync", "Context Sync")]
+                h = hs[0] if len(hs) == 1 else (by_idx.get(x[7]) if x[7] > 0 else None)
                 exp = got[h[0]] if h is not None else -1
                 if got[x[0]] != exp:
                     out.append(f"rank {r} device event {x[0]}: iteration {got[x[0]]}, its launch call {x[7]} has {exp}")
